@@ -78,6 +78,17 @@ def _case(draw, tier):
     c = dict(t0=k0 / q, t1=(k0 + n) / q,
              messy=[dict(spikes=[(k0 + s) / q for s in t["spikes"]],
                          edges=[(k0 + t["e0"]) / q, (k0 + t["e1"]) / q]) for t in trains])
+    if draw(st.integers(0, 5)) == 0:
+        # a spike a few 1e-7 beyond the common interval: inside by the 1e-6 tolerance the
+        # statement grants, so reconciliation keeps it, at its own time, exactly once -
+        # also next to a spike sitting exactly on that edge
+        k = draw(st.integers(0, len(trains) - 1))
+        eps = draw(st.sampled_from([2.0 ** -21, 3 * 2.0 ** -22]))
+        v = c["t1"] + eps if draw(st.booleans()) else c["t0"] - eps
+        sp = c["messy"][k]["spikes"]
+        sp.insert(draw(st.integers(0, len(sp))), v)
+        if draw(st.booleans()):
+            sp.insert(draw(st.integers(0, len(sp))), c["t1"] if v > c["t1"] else c["t0"])
     c["mrts"] = draw(st.one_of(gen.mrts_for(g), st.just("auto")))
     c["ri"] = draw(st.booleans())
     c["max_tau"] = draw(gen.maxtau_for(g))
@@ -89,6 +100,14 @@ def _case(draw, tier):
     # psth uses the edges of the first train: bin not larger than that recording
     c["bin"] = (trains[0]["e1"] - trains[0]["e0"]) / q / draw(st.sampled_from([1, 2, 4]))
     c["compiled"] = draw(st.booleans())
+    # an averaging interval inside the COMMON recording (it may well reach beyond the
+    # own edges of some of the messy trains), for the list forms of the scalar measures
+    if draw(st.booleans()):
+        a_ = draw(st.integers(0, n - 1))
+        b_ = draw(st.integers(a_ + 1, n))
+        c["interval"] = [(k0 + a_) / q, (k0 + b_) / q]
+    else:
+        c["interval"] = None
     return c
 
 
@@ -103,7 +122,9 @@ def _expected(case, first=None):
     ms = case["messy"] if first is None else case["messy"][:first]
     t0 = min(m["edges"][0] for m in ms)
     t1 = max(m["edges"][1] for m in ms)
-    return t0, t1, [sorted(set(s for s in m["spikes"] if t0 <= s <= t1)) for m in ms]
+    # (generated times are either inside, at least 1/64 outside, or less than 7.2e-7
+    # outside: never near the 1e-6 border of the tolerance itself)
+    return t0, t1, [sorted(set(s for s in m["spikes"] if t0 - 1e-6 < s < t1 + 1e-6)) for m in ms]
 
 
 def _unsorted(sp):
@@ -120,8 +141,11 @@ def classify(case):
             labels.append("duplicate_times")
         if _unsorted(sp) and len(set(sp)) < len(sp):
             labels.append("unsorted_and_duplicates")
-        if any(s < case["t0"] or s > case["t1"] for s in sp):
+        if any(s < case["t0"] - 1e-6 or s > case["t1"] + 1e-6 for s in sp):
             labels.append("spike_outside_common_interval")
+        if any(case["t0"] - 1e-6 < s < case["t0"] or case["t1"] < s < case["t1"] + 1e-6
+               for s in sp):
+            labels.append("spike_outside_within_tolerance")
     if len(set(tuple(m["edges"]) for m in case["messy"])) > 1:
         labels.append("differing_edges")
     if case["mrts"] == "auto":
@@ -141,6 +165,11 @@ def _mods():
                 spike=importlib.import_module("pyspike.spike_distance"),
                 sync=importlib.import_module("pyspike.spike_sync"),
                 dirn=importlib.import_module("pyspike.spike_directionality"))
+
+
+TAKES_INTERVAL = {"isi_distance", "isi_distance_multi", "isi_distance_matrix",
+                  "spike_distance", "spike_distance_multi", "spike_distance_matrix",
+                  "spike_sync", "spike_sync_multi", "spike_sync_matrix"}
 
 
 def entry_points():
@@ -253,6 +282,10 @@ def run_case(case, ctx):
     ctx.check(_snap(rec2) == _snap(rec), "reconcile:not_idempotent",
               lambda: "second pass changed %r" % ([list(r.spikes) for r in rec],))
 
+    # a spike beyond the edge (within the granted tolerance) is kept by the
+    # reconciliation - that much the statement says and the first block has judged; what
+    # a measure makes of a spike outside its recording is not defined
+    near_out = "spike_outside_within_tolerance" in classify(case)
     # ---- every measure entry point, three ways
     for name, kind, fn, keys in entry_points():
         kw = {}
@@ -272,8 +305,23 @@ def run_case(case, ctx):
         for fname, mk in forms:
             if fname == "indices":
                 kw = dict(kw, indices=list(case["indices"]))
+            if fname in ("list", "indices") and name in TAKES_INTERVAL and \
+                    case.get("interval") is not None:
+                kw = dict(kw, interval=tuple(case["interval"]))
             a = messy()
             sa = _snap(a)
+            if near_out:
+                # undefined result (see below): not even "returns" is demanded, only that
+                # the trains passed in stay as they are
+                try:
+                    with __import__("pbt.env", fromlist=["quiet"]).quiet():
+                        fn(*mk(a), **kw)
+                except Exception:
+                    pass
+                ctx.check(_snap(a) == sa, "input_modified:" + name,
+                          lambda: "%s (%s form) changed the spike trains passed to it"
+                          % (name, fname))
+                continue
             r_messy = ctx.call(name + ":messy", fn, *mk(a), **kw)
             ctx.check(_snap(a) == sa, "input_modified:" + name,
                       lambda: "%s (%s form) changed the spike trains passed to it"
@@ -349,6 +397,14 @@ def run_case(case, ctx):
     fkw = {"max_tau": case["max_tau"]}
     if case["mrts"] is not None:
         fkw["MRTS"] = case["mrts"]
+    if near_out:
+        try:
+            with __import__("pbt.env", fromlist=["quiet"]).quiet():
+                pyspike.filter_by_spike_sync(a, case["threshold"], **fkw)
+        except Exception:
+            pass
+        ctx.check(_snap(a) == sa, "input_modified:filter_by_spike_sync", "filter changed input")
+        return
     fm = ctx.call("filter:messy", pyspike.filter_by_spike_sync, a, case["threshold"], **fkw)
     ctx.check(_snap(a) == sa, "input_modified:filter_by_spike_sync", "filter changed input")
     fc = ctx.call("filter:clean", pyspike.filter_by_spike_sync, clean(), case["threshold"],
